@@ -79,9 +79,17 @@ class Ctx:
             _borrow_cache[key] = child
         for foreign, own in mapping.items():
             self.rule(own, f"[shared with {foreign}] {child.rule_text.get(foreign, '')} -- {why}", floor=child.floors.get(foreign, 1) if only is None else 1)
+            n_adopted = 0
+            n_foreign = 0
             for o in child.obligations:
-                if o["rule"] == foreign and not o["builtin"] and (only is None or only(o)):
-                    self._add(own, o["instance"], o["verdict"], o["where"], o["construct"], o["detail"])
+                if o["rule"] == foreign and not o["builtin"]:
+                    n_foreign += 1
+                    if only is None or only(o):
+                        n_adopted += 1
+                        self._add(own, o["instance"], o["verdict"], o["where"], o["construct"], o["detail"])
+            if only is not None and n_adopted == 0 and n_foreign >= child.floors.get(foreign, 1):
+                # the foreign rule ran and none of what it found concerns this property's functions
+                self._add(own, f"{foreign} evaluated ({n_foreign} obligations); none of its findings lies in this property's functions", HOLDS, "", "", "")
         for o in child.obligations:
             if o["rule"].endswith(".anchor"):
                 self._add(self.prop + ".anchor", f"shared rules of {prop}: " + o["instance"], o["verdict"], o["where"], o["construct"], o["detail"])
